@@ -291,6 +291,10 @@ class Completion:
                 )
             elif nonterminals[-1] in ('trailer', 'dotted_name') and nodes[-1] == '.':
                 dot = self._module_node.get_leaf_for_position(self._position)
+                if dot is None:
+                    # The cursor is in the whitespace between the dot and the
+                    # next token (`foo.  |bar`).
+                    dot = leaf.get_previous_leaf()
                 if dot.type == "newline":
                     dot = dot.get_previous_leaf()
                 if dot.type == "endmarker":
